@@ -110,8 +110,14 @@ func check(c Case) pbt.Verdict {
 		}
 		relative = true
 	}
-	ctx, cancel := context.WithTimeout(context.Background(), 20*time.Second)
+	budget := 20 * time.Second
+	if relative {
+		// not screened for termination by the reference interpreter: a program that runs long is not compared
+		budget = 3 * time.Second
+	}
+	ctx, cancel := context.WithTimeout(context.Background(), budget)
 	defer cancel()
+	started := time.Now()
 	mod := "verif-module"
 
 	seq := func(name string, one func(e types.EnvType, i int) (types.MalType, error)) routeResult {
@@ -135,6 +141,9 @@ func check(c Case) pbt.Verdict {
 		}
 		return lisp.EVAL(ctx, ast, e)
 	}))
+	if relative && (time.Since(started) > time.Second || (routes[0].r.Err != nil && strings.Contains(routes[0].r.Err.Error(), "timeout"))) {
+		return pbt.Verdict{Excluded: "model-unspecified-and-long-running", Labels: []string{"excluded:" + why + " (long running)"}}
+	}
 	// R2: READ without cursor, canonical layout
 	routes = append(routes, seq("R2-read-nil-cursor", func(e types.EnvType, i int) (types.MalType, error) {
 		ast, err := lisp.READ(val.Literal(c.Forms[i]), nil, e)
